@@ -1,34 +1,49 @@
 (* C01 - Answers equal depth-first SLD resolution, in order.
 
-   The reference for cut-free programs is Spec/SpecLazy.v: depth-first, left-to-right,
-   clause-order resolution in success-continuation style (`answers`), threading the world -
-   variable-id counter, stop flag, output - in search order.
+   The reference is Spec/SpecCut.v: depth-first, left-to-right, clause-order resolution in
+   success-continuation style (`canswers`), threading the world - variable-id counter, stop
+   flag, output - in search order; cut, not and time as documented.  (Spec/SpecLazy.v is the
+   same search for the fragment without cut / not / time, without the signal machinery.)
 
-   PROVED (C01_refines), for EVERY knowledge base whose clause bodies are built from calls,
-   conjunctions, disjunctions and built-ins other than `!` (no not/time), every query, every
-   world and all fuels: if the reference search of the query finishes with R (the list of
-   answer substitutions in order, and the final world) and asking the query's node again and
-   again until it reports no answer finishes with R', then R' = R - the same answers, in the
-   same order and multiplicity, SYNTACTICALLY equal substitution sets (a fortiori equal up to
-   renaming of unbound variables), the same final variable-id counter and the same output.
-   The proof is a refinement: `den` (Proofs/RefineDen.v) maps every node state to the rest of
-   the reference search it stands for, `den_fresh` says a new node denotes the reference
-   search of its goal, `den_step` that one machine step either finds no answer - the
-   denotation is empty - or finds the next answer and leaves a node denoting the rest.
-   "Bindings of an abandoned alternative never appear later" is part of it: the answers are
-   the reference's, which has no shared mutable state at all.
+   PROVED (C01_refines), for EVERY knowledge base, every query, every world and all fuels: if
+   the reference search of the query finishes with R (the list of answer substitutions in
+   order, and the final world) and asking the query's node again and again until it reports no
+   answer finishes with R', then R' = R - the same answers, in the same order and
+   multiplicity, SYNTACTICALLY equal substitution sets (a fortiori equal up to renaming of
+   unbound variables), the same final variable-id counter and the same output.  The proof is a
+   refinement: `cden` (Proofs/RefineCut.v) maps every node state to the rest of the reference
+   search it stands for, `cden_fresh` says a new node denotes the reference search of its goal,
+   `cden_step` that one machine step either finds no answer - the denotation is empty - or
+   finds the next answer and leaves a node denoting the rest.  "Bindings of an abandoned
+   alternative never appear later" is part of it: the answers are the reference's, which has
+   no shared mutable state at all.  The only hypothesis is that the reference search finishes
+   (it refuses cut directly inside not(..) / time(..), which the documentation does not cover).
 
-   For programs with cut / not the reference is the trace semantics of Spec/SpecSolve.v; the
-   statement for those (`refines_reference`, Spec/Refine.v) is not yet proved - what is
-   proved about cut and not is in Properties/C02.v, C03.v - and is evaluated by the check's
-   oracle on every generated history. *)
+   C01_refines_cut_free is the earlier theorem against Spec/SpecLazy.v.  The eager trace
+   semantics Spec/SpecSolve.v (answers up to renaming; `refines_reference`) remains as a second,
+   independently written oracle of the check; no theorem relates it to the other two. *)
 From Coq Require Import String.
 From Suiron Require Import Model.Term Model.Subst Model.Show Model.Rename Model.Solve Spec.SpecSolve
-  Spec.SpecLazy Spec.Refine Proofs.SolveDead Proofs.SolveCut Proofs.SolveMisc Proofs.RefinePlain Proofs.RefineDen.
+  Spec.SpecLazy Spec.SpecCut Spec.Refine Proofs.SolveDead Proofs.SolveCut Proofs.SolveMisc Proofs.RefinePlain Proofs.RefineDen Proofs.RefineCut.
 
-Definition C01_full_with_cut : Prop := refines_reference.
+Theorem C01_refines : forall kb bf q w fs R nd w1 m F R',
+  canswers kb bf fs q w = Ok R ->
+  make_base_node kb (GCall q) w = Ok (nd, w1) ->
+  ask_all kb bf m F nd w1 = Ok R' -> R' = R.
+Proof. exact refines_cut. Qed.
 
-Theorem C01_refines : forall kb bf, plain_kb kb ->
+(* the refinement mapping, for every node and every continuation *)
+Theorem C01_step_all : forall kb bf F nd w nd' r c w1 fs k R,
+  (1 <= fs)%nat -> next kb bf F nd w = Ok (nd', r, c, w1) -> cden kb bf fs nd w k = Ok R ->
+  cstepres kb bf fs k R nd' r c w1.
+Proof. exact cden_step. Qed.
+
+Theorem C01_fresh_node_all : forall kb bf g f fs ss w nd w' k1 k2 R,
+  make_node kb g ss w = Ok (nd, w') -> (f <= fs)%nat -> ckle k1 k2 ->
+  csolve kb bf f g ss w k1 = Ok R -> cden kb bf fs nd w' k2 = Ok R.
+Proof. exact cden_fresh. Qed.
+
+Theorem C01_refines_cut_free : forall kb bf, plain_kb kb ->
   forall q w fs R nd w1 m F R',
     answers kb bf fs q w = Ok R ->
     make_base_node kb (GCall q) w = Ok (nd, w1) ->
@@ -91,6 +106,33 @@ Definition C01_demo : bool :=
 Example C01_refines_witness : C01_demo = true.
 Proof. vm_compute. reflexivity. Qed.
 
+(* non-vacuity of C01_refines with cut and not:
+   p($X) :- n($X), not(e($X)).   p($X) :- n($X), $X = 2, !.   p(7).   n(1). n(2). n(3).  e(3).  |- p($A)
+   gives 1, 2 (first clause), then 2 (second clause, cut: no p(7)) - in the reference and on the machine *)
+Definition C01_demo_cut : bool :=
+  let X := TVar 0 [36; 88]%N in
+  let at1 c := TAtom [c] in
+  let n i := mkRule (TComplex [at1 110%N; TInt i]) GNil in
+  let p1 := mkRule (TComplex [at1 112%N; X])
+              (GOp OAnd [GCall (TComplex [at1 110%N; X]); GOp ONot [GCall (TComplex [at1 101%N; X])]]) in
+  let p2 := mkRule (TComplex [at1 112%N; X])
+              (GOp OAnd [GCall (TComplex [at1 110%N; X]); GBip n_unify (Some [X; TInt 2]); GBip n_cut None]) in
+  let p3 := mkRule (TComplex [at1 112%N; TInt 7]) GNil in
+  let kb := [([112; 47; 49]%N, [p1; p2; p3]); ([110; 47; 49]%N, [n 1%Z; n 2%Z; n 3%Z]);
+             ([101; 47; 49]%N, [mkRule (TComplex [at1 101%N; TInt 3]) GNil])] in
+  let q := TComplex [at1 112%N; TVar 1 [36; 65]%N] in
+  let w := mkWorld 1 false None [] in
+  match canswers kb 50 50 q w, make_base_node kb (GCall q) w with
+  | Ok ([a; b; c], w2), Ok (nd, w1) =>
+      match ask_all kb 50 9 60 nd w1 with
+      | Ok ([a'; b'; c'], w2') => N.eqb (next_id w2) (next_id w2')
+      | _ => false
+      end
+  | _, _ => false
+  end.
+Example C01_refines_cut_witness : C01_demo_cut = true.
+Proof. vm_compute. reflexivity. Qed.
+
 Example C01_witness :
   format_solution (GCall (TComplex [TAtom [112%N]; TVar 1 [36; 65]%N; TInt 3; TVar 2 [36; 66]%N]))
                   (TComplex [TAtom [112%N]; TInt 7; TInt 3; TAtom [98%N]])
@@ -102,6 +144,9 @@ Check C01_partial_answer_format : forall f0 qargs f1 rargs, length qargs = lengt
   Ok (show_pairs true (var_pairs qargs rargs)).
 
 Print Assumptions C01_refines.
+Print Assumptions C01_step_all.
+Print Assumptions C01_fresh_node_all.
+Print Assumptions C01_refines_cut_free.
 Print Assumptions C01_step.
 Print Assumptions C01_fresh_node.
 Print Assumptions C01_partial_answer_format.
